@@ -533,6 +533,11 @@ where
                         // is durable — durable_index may exceed max_index after truncation,
                         // which would cause flush() to short-circuit before the replace lands.
                         self.remove_range(diverge_index..=u64::MAX);
+                        // The truncated tail no longer occupies its indexes: the next index
+                        // to allocate follows the entry before the divergence point. Otherwise
+                        // a node that later becomes leader allocates past the old tail and
+                        // leaves an index gap in its own log.
+                        self.next_id.store(diverge_index, Ordering::Release);
                         self.insert_to_memory(tail);
                         let (done_tx, done_rx) = oneshot::channel();
                         self.command_sender
